@@ -19,6 +19,7 @@ import (
 	"strings"
 	"sync"
 	"testing"
+	"time"
 )
 
 // ---------------------------------------------------------------- environment
@@ -189,5 +190,78 @@ func vInstallPanicHandler(rec *vRec) {
 		buf := make([]byte, 4096)
 		buf = buf[:runtime.Stack(buf, false)]
 		rec.Ev("panic", kv{"msg": fmt.Sprintf("%v", v), "stack": string(buf)})
+	}
+}
+
+// vGoroutineStates returns a fingerprint of all goroutines (id, state, top function) and whether
+// any goroutine other than the pollers is running, runnable or sleeping.
+func vGoroutineStates() (string, bool) {
+	buf := make([]byte, 1<<20)
+	buf = buf[:runtime.Stack(buf, true)]
+	var fp strings.Builder
+	active := false
+	blocks := strings.Split(string(buf), "\n\n")
+	for _, b := range blocks {
+		lines := strings.Split(b, "\n")
+		if len(lines) < 2 || !strings.HasPrefix(lines[0], "goroutine ") {
+			continue
+		}
+		if strings.Contains(b, "vGoroutineStates") {
+			continue
+		}
+		hdr := lines[0]
+		st := ""
+		if i := strings.Index(hdr, "["); i >= 0 {
+			st = hdr[i+1:]
+			if j := strings.IndexAny(st, ",]"); j >= 0 {
+				st = st[:j]
+			}
+		}
+		if st == "running" || st == "runnable" || st == "sleep" {
+			active = true
+		}
+		fp.WriteString(hdr[:strings.Index(hdr+" [", " [")])
+		fp.WriteString(st)
+		fp.WriteString(lines[1])
+		fp.WriteString(";")
+	}
+	return fp.String(), active
+}
+
+// vAwait waits for done. After d it does not give up while the process is still making progress
+// (some goroutine is runnable / sleeping, or the goroutine picture keeps changing): a verdict
+// "hang" is only returned when three samples 400 ms apart show the same fully blocked picture,
+// or after the hard cap. This keeps the watchdogs sound on a heavily loaded machine.
+func vAwait(done <-chan struct{}, d time.Duration) bool {
+	select {
+	case <-done:
+		return true
+	case <-time.After(d):
+	}
+	hard := time.Now().Add(90 * time.Second)
+	same := 0
+	last := ""
+	for time.Now().Before(hard) {
+		select {
+		case <-done:
+			return true
+		case <-time.After(400 * time.Millisecond):
+		}
+		fp, active := vGoroutineStates()
+		if !active && fp == last {
+			same++
+			if same >= 3 {
+				return false
+			}
+		} else {
+			same = 0
+		}
+		last = fp
+	}
+	select {
+	case <-done:
+		return true
+	default:
+		return false
 	}
 }
